@@ -77,6 +77,8 @@ type TypedOpts struct {
 	StructDepth int
 	Drop        func(path string) bool
 	SignedBytes bool // ByteArray -> []int8 instead of []byte
+	// NamedBytes: ByteArray -> a named byte-slice type: 1 MethBytes (type MethBytes []byte), 2 Nibbles ([]Nibble, Nibble uint8)
+	NamedBytes int
 }
 
 func TypedOf(t *rn.Tag, o TypedOpts) (*TD, *VD, int) {
@@ -94,6 +96,10 @@ func typedOf(t *rn.Tag, o TypedOpts, depth int, path string, dropped *int) (*TD,
 				vd.Elems[i] = &VD{I: int64(int8(b))}
 			}
 			return &TD{K: KSlice, Elem: &TD{K: KI8}}, vd
+		}
+		if o.NamedBytes > 0 {
+			_, vd := dynOf(t)
+			return &TD{K: KNamed, Name: []string{"MethBytes", "Nibbles"}[(o.NamedBytes-1)%2]}, vd
 		}
 		return dynOf(t)
 	case rn.List:
